@@ -347,6 +347,17 @@ def check(run):
         run.check(ok, 'D1', 'AdnlChannel.__init__[key split]' if not ok else f'split[{oname}]',
                   f'{oname}: A.enc={vrepr(ea)[:40]} B.dec={vrepr(db)[:40]} | A.dec={vrepr(da)[:40]} B.enc={vrepr(eb)[:40]}', w, witness=dict(ordering=oname))
         run.evaluations += 1
+        # a channel re-opened over the same keys (a reconnect) gets the same two keys again
+        try:
+            chA2 = it.construct(AC, [A, server_view(prog, it, B), K(ida), K(idb)], {})
+            chA3 = it.construct(AC, [A, server_view(prog, it, B), K(ida), K(idb)], {})
+            again = all(same(it, c_.attrs.get('enc_key'), ea) and same(it, c_.attrs.get('dec_key'), da) for c_ in (chA2, chA3))
+            why2 = f'{oname}: the channel opened a second and third time over the same keys has ' + ('the same enc / dec keys' if again else
+                    f'enc={vrepr(chA2.attrs.get("enc_key"))[:30]} / {vrepr(chA3.attrs.get("enc_key"))[:30]} where the first had {vrepr(ea)[:30]} - the peer no longer decrypts it')
+        except RaiseEx as e:
+            again, why2 = False, f'{oname}: re-opening the channel raises {e}'
+        run.check(again, 'D1', 'AdnlChannel.__init__[channel re-opened]' if not again else f'reopened[{oname}]', why2, w)
+        run.evaluations += 1
         if oname == 'equal':
             continue
         # ---- D2 packets, both directions
